@@ -34,6 +34,12 @@ type serverConn struct {
 
 	closeOnce sync.Once
 	debug     Debugger
+
+	// Set, with the reason, before the sockets of a closed connection are collected:
+	// a socket that is still being admitted (slow middleware) is disconnected by `connect`.
+	closedMu    sync.Mutex
+	closed      bool
+	closeReason Reason
 }
 
 func newServerConn(
@@ -161,6 +167,18 @@ func (c *serverConn) connect(header *parser.PacketHeader, decode parser.Decode) 
 
 	c.sockets.set(socket)
 	c.nsps.set(nsp)
+
+	// The connection may have ended while the socket was being admitted (a slow middleware,
+	// for example): `onClose` has not seen this socket then. Disconnect it now.
+	if reason, closed := c.closedWith(); closed {
+		socket.onClose(reason)
+	}
+}
+
+func (c *serverConn) closedWith() (reason Reason, closed bool) {
+	c.closedMu.Lock()
+	defer c.closedMu.Unlock()
+	return c.closeReason, c.closed
 }
 
 func (c *serverConn) connectError(message any, nsp string) {
@@ -235,6 +253,11 @@ func (c *serverConn) onClose(reason Reason, err error) {
 	// We don't want it to close more than once,
 	// so we use sync.Once to avoid running onClose more than once.
 	c.closeOnce.Do(func() {
+		c.closedMu.Lock()
+		c.closed = true
+		c.closeReason = reason
+		c.closedMu.Unlock()
+
 		sockets := c.sockets.getAndRemoveAll()
 		for _, socket := range sockets {
 			socket.onClose(reason)
